@@ -481,3 +481,485 @@ def consistent(trace, names) -> bool:
                 return False
             last[e[1]] = e[2]
     return True
+
+
+# ---------------------------------------------------------------------------------------------------
+# hardening round (C09 / C22): depth-aware engine, value-based ("symbolic") flow spec, helper inlining by class, call-graph closure.
+# Everything below is additive; nothing above depends on it.
+
+from ..paths import Engine  # noqa: E402
+from ..paths import is_const  # noqa: E402
+from ..paths import R  # noqa: E402
+from ..paths import State  # noqa: E402
+from ..paths import UNKNOWN  # noqa: E402
+
+
+class DepthEngine(Engine):
+    """Path engine that tells the spec where it is: ``spec.cur_depth`` = inlining depth of the statement / condition being labelled
+    and ``spec.call_stack`` = the call sites through which the current frame was inlined.  With that ``events`` / ``cond_event`` /
+    ``loop_event`` (which get no depth from the engine) can *evaluate* expressions in the right frame, so rules can be written on
+    values (what object is cancelled / awaited / tested) instead of on the text of local names."""
+
+    def stmt(self, node, states, depth):
+        self.spec.cur_depth = depth
+        return super().stmt(node, states, depth)
+
+    def cond(self, expr, states, depth):
+        self.spec.cur_depth = depth
+        return super().cond(expr, states, depth)
+
+    def _plain_cond(self, expr, s, depth, T, F):
+        # walrus targets nested in a condition leaf (`if (t := io.handler) is None:`) are bound before the leaf is decided
+        # (BoolOp operands are separate leaves, so everything inside one leaf is evaluated unconditionally - IfExp arms excepted)
+        s = s.emit(*self.spec.events(expr, s))
+        if not isinstance(expr, ast.NamedExpr):
+            for ne in eval_order(expr):
+                if isinstance(ne, ast.NamedExpr) and unconditional_in_expr(ne, expr):
+                    s = self.spec.bind(ne.target, ne.value, s, depth)
+        self._decide_into(expr, expr, s, depth, T, F)
+
+    def call(self, fn, call, states, depth):
+        stack = self.spec.call_stack
+        stack.append(call)
+        try:
+            return super().call(fn, call, states, depth)
+        finally:
+            stack.pop()
+            self.spec.cur_depth = depth
+
+
+def unconditional_in_expr(node, root) -> bool:
+    """is ``node`` evaluated whenever the expression ``root`` is (not under an IfExp arm, a later BoolOp operand, a lambda or a comprehension)?"""
+    child, par = node, getattr(node, "_parent", None)
+    while par is not None and child is not root:
+        if isinstance(par, ast.IfExp) and child is not par.test:
+            return False
+        if isinstance(par, ast.BoolOp) and child is not par.values[0]:
+            return False
+        if isinstance(par, (ast.Lambda, ast.ListComp, ast.SetComp, ast.DictComp, ast.GeneratorExp)):
+            return False
+        child, par = par, getattr(par, "_parent", None)
+    return child is root
+
+
+def traces_of_v(fn, spec, bindings: dict | None = None, init_env: dict | None = None):
+    """``paths.traces_of`` on a DepthEngine (for SymFlowSpec and its subclasses)."""
+    eng = DepthEngine(spec)
+    o = eng.run(fn, State((), dict(init_env or {})), bindings)
+    out = []
+    for s in o.ret:
+        out.append((s.trace, "return", s))
+    for s in o.exc:
+        e = s.get("$exc")
+        out.append((s.trace, "raise:" + (e[1] if is_const(e) else "?"), s))
+    return out, eng
+
+
+def S(kind, *rest):
+    """A symbolic value of the value-based specs: ('s', kind, ...)."""
+    return ("s", kind) + tuple(rest)
+
+
+def is_sym(v, kind=None):
+    return isinstance(v, tuple) and len(v) >= 2 and v[0] == "s" and (kind is None or v[1] == kind)
+
+
+def _handler_type_names(h) -> list[str]:
+    if h.type is None:
+        return [""]
+    return [last_attr(e) for e in (h.type.elts if isinstance(h.type, ast.Tuple) else [h.type])]
+
+
+def cancel_guarded(node, call_stack=(), stop=None, also=None) -> bool:
+    """Is ``node`` inside the *body* of a ``try`` that has a handler for asyncio.CancelledError (bare except / CancelledError /
+    BaseException) - in its own function or, when its function was inlined, at one of the call sites in ``call_stack``?
+    ``also(try_node)`` lets a rule accept further guards (e.g. a ``finally`` that does the clean-up itself)."""
+    for start in [node] + list(reversed(list(call_stack))):
+        child, p = start, getattr(start, "_parent", None)
+        while p is not None and p is not stop and not isinstance(p, (ast.FunctionDef, ast.AsyncFunctionDef, ast.Lambda)):
+            if isinstance(p, ast.Try) and any(child is x for x in p.body):
+                if any(n in ("", "CancelledError", "BaseException") for h in p.handlers for n in _handler_type_names(h)):
+                    return True
+                if also is not None and also(p):
+                    return True
+            child, p = p, getattr(p, "_parent", None)
+    return False
+
+
+def class_helper_resolver(model, rel: str, cls: str, atomic=()):
+    """Resolver for the path engine: inline ``self.<m>(...)`` / ``cls.<m>(...)`` when ``m`` is a method found along the MRO of ``cls`` and
+    bare ``f(...)`` when ``f`` is a function of module ``rel`` - except the names in ``atomic`` (the methods a rule treats as events of
+    its alphabet).  This is what makes "extract method" refactors transparent: a new private helper is analysed as if it were still
+    written in place."""
+    mod = model.module(rel)
+    atomic = set(atomic)
+
+    def resolve(call):
+        f = call.func
+        if isinstance(f, ast.Attribute) and isinstance(f.value, ast.Name) and f.value.id in ("self", "cls"):
+            if f.attr in atomic:
+                return None
+            r = model.method(rel, cls, f.attr)
+            return r[1] if r is not None else None
+        if isinstance(f, ast.Name) and f.id not in atomic:
+            d = mod.get(f.id)
+            if isinstance(d, (ast.FunctionDef, ast.AsyncFunctionDef)):
+                return d
+        return None
+
+    return resolve
+
+
+def reference_sites(model, name: str, sub: str = "mitmproxy"):
+    """[(rel, enclosing function node | None, node, is_call)] for every ``<x>.name`` attribute / bare ``name`` reference in the package
+    (definitions excluded).  Text pre-filter: a reference needs the identifier in the file."""
+    from ..model import enclosing_func
+
+    out = []
+    for p in sorted((model.repo / sub).rglob("*.py")):
+        rel = p.relative_to(model.repo).as_posix()
+        if rel.startswith("mitmproxy/contrib/") or name not in model.source(rel):
+            continue
+        for n in ast.walk(model.module(rel).tree):
+            hit = (isinstance(n, ast.Attribute) and n.attr == name) or (isinstance(n, ast.Name) and n.id == name and isinstance(n.ctx, ast.Load))
+            if not hit:
+                continue
+            par = getattr(n, "_parent", None)
+            out.append((rel, enclosing_func(n), n, isinstance(par, ast.Call) and par.func is n))
+    return out
+
+
+def _enclosing_class(node):
+    n = getattr(node, "_parent", None)
+    while n is not None and not isinstance(n, ast.ClassDef):
+        n = getattr(n, "_parent", None)
+    return n
+
+
+def _may_denote(model, rel, fn, srel, node) -> bool:
+    """Can the reference ``node`` (in module ``srel``) denote the helper ``fn`` of module ``rel``?  A ``self.<name>`` / ``cls.<name>`` inside a
+    class outside the helper's class family is a different method that merely has the same name; a bare name in another module denotes
+    it only if it is imported from the helper's module.  Anything that cannot be told apart counts (conservative)."""
+    owner = _enclosing_class(fn)
+    if isinstance(node, ast.Name):
+        if owner is not None:
+            return False  # a method is not reachable through a bare name
+        if srel == rel:
+            return True
+        target = model.module(srel).imports.get(node.id, "")
+        return target.endswith("." + fn.name) and model.module_by_dotted(target.rsplit(".", 1)[0]) is model.module(rel)
+    base = node.value
+    if isinstance(base, ast.Name) and base.id in ("self", "cls"):
+        if owner is None:
+            return False
+        k = _enclosing_class(node)
+        if k is None:
+            return True
+        try:
+            fam_k = {c.name for _, c in model.mro(srel, getattr(k, "_qual", k.name))}
+            fam_o = {c.name for _, c in model.mro(rel, getattr(owner, "_qual", owner.name))}
+        except AnalysisError:
+            return True
+        return owner.name in fam_k or k.name in fam_o
+    return True
+
+
+def only_reachable_from(model, rel: str, fn, roots, _seen=None) -> bool:
+    """Is the helper function ``fn`` (a def node of module ``rel``) *called* only from the functions in ``roots`` (def nodes) or from
+    helpers for which the same holds, and never referenced otherwise (stored, passed as a callback)?  The "who may fire / who may
+    write" rules use it so that a private helper extracted from an allowed function stays allowed."""
+    _seen = _seen if _seen is not None else set()
+    if any(fn is r for r in roots):
+        return True
+    if id(fn) in _seen:
+        return True  # a cycle of helpers adds no new caller
+    _seen.add(id(fn))
+    sites = [x for x in reference_sites(model, fn.name) if _may_denote(model, rel, fn, x[0], x[2])]
+    if not sites:
+        return False
+    for srel, caller, node, is_call in sites:
+        if not is_call or caller is None:
+            return False
+        if not only_reachable_from(model, srel, caller, roots, _seen):
+            return False
+    return True
+
+
+class SymFlowSpec(FlowSpec):
+    """FlowSpec on a DepthEngine with *value-based* events.
+
+    values:  S('hook', Cls)     a lifecycle hook object ``mod.Cls(...)`` (``hook_classes``), wherever it is built / passed
+             R('a.b.c')         attribute chains are resolved through locals and parameters bound to references
+                                (``conn = command.connection; conn.address`` and a helper's parameter both read R('command.connection.address'))
+             subclasses add their own through ``sym_value``.
+    events:  ('hook', Cls) also when the hook object reaches ``handle_hook`` through a local / parameter ('?' if it cannot be resolved),
+             ('hookawait', Cls) when that call is awaited,
+             ('extwait', text, guarded) for every await of / ``async with`` on something that is not a method of ``self`` (``extwaits``),
+             plus whatever ``sym_events`` of a subclass adds.
+    Use ``traces_of_v``."""
+
+    cur_depth = 0
+
+    def __init__(self, hook_classes=(), extwaits=False, guard_also=None, **kw):
+        super().__init__(**kw)
+        self.call_stack: list = []
+        self.hook_classes = tuple(hook_classes)
+        self.extwaits = extwaits
+        self.guard_also = guard_also
+        self.wait_log: dict = {}
+
+    # -- values
+    def sym(self, expr, st):
+        return self.value(expr, st, self.cur_depth)
+
+    def sym_value(self, expr, st, depth):
+        return None
+
+    def value(self, expr, st, depth):
+        v = self.sym_value(expr, st, depth)
+        if v is not None:
+            return v
+        if isinstance(expr, ast.Call) and self.hook_classes and last_attr(expr.func) in self.hook_classes:
+            return S("hook", last_attr(expr.func))
+        if isinstance(expr, ast.Attribute):
+            ch = attr_chain(expr)
+            if ch and st.has(ch):
+                return st.get(ch)  # a tracked chain
+            b = self.value(expr.value, st, depth)
+            if isinstance(b, tuple) and len(b) == 2 and b[0] == "r":
+                return R(f"{b[1]}.{expr.attr}")
+        if isinstance(expr, (ast.Starred, ast.NamedExpr)):
+            return self.value(expr.value, st, depth)
+        return super().value(expr, st, depth)
+
+    # -- events
+    def sym_events(self, node, st):
+        return []
+
+    def _hook_cls(self, call, st):
+        a = call.args[0]
+        if isinstance(a, ast.Call):
+            return last_attr(a.func)
+        v = self.sym(a, st)
+        return v[2] if is_sym(v, "hook") else "?"
+
+    def events(self, node, st):
+        base = list(super().events(node, st))
+        extra = []
+        for n in eval_order(node):
+            if isinstance(n, ast.Call) and call_name(n) == self.hook_call and n.args and not isinstance(n.args[0], ast.Call):
+                extra.append(("hook", self._hook_cls(n, st)))  # (the literal form is labelled by FlowSpec)
+            elif isinstance(n, ast.Await):
+                c = n.value
+                if isinstance(c, ast.Call) and call_name(c) == self.hook_call and c.args:
+                    extra.append(("hookawait", self._hook_cls(c, st)))
+                elif self.extwaits:
+                    callee = call_name(c) if isinstance(c, ast.Call) else norm(c)
+                    if not (callee.startswith("self.") and callee.count(".") == 1 and isinstance(c, ast.Call)):
+                        extra.append(("extwait", callee, cancel_guarded(n, self.call_stack, also=self.guard_also), n))
+        extra.extend(self.sym_events(node, st))
+        for e in extra:
+            if e[0] == "extwait":
+                self._log_wait(e)
+        return base + [e for e in extra if self._keep_ev(e)]
+
+    def with_enter(self, node, s):
+        out = tuple(super().with_enter(node, s))
+        if self.extwaits and isinstance(node, ast.AsyncWith):
+            ev = ("extwait", "async with " + ", ".join(norm(i.context_expr) for i in node.items), cancel_guarded(node, self.call_stack, also=self.guard_also), node)
+            self._log_wait(ev)
+            if self._keep_ev(ev):
+                out = (ev,) + out
+        return out
+
+    def _log_wait(self, ev):
+        """``wait_log``: every external wait the engine came across (also on paths that are cut off by the loop bound):
+        id(node) -> [node, text, guarded on every occurrence]"""
+        w = self.wait_log.setdefault(id(ev[3]), [ev[3], ev[1], True])
+        w[2] = w[2] and ev[2]
+
+
+# -- ConnectionHandler.handle_client, value-based (shared by C09 R09.2 and C22 R22.2) --------------------------------
+
+SERVER_PY = "mitmproxy/proxy/server.py"
+CONN_HANDLER = "ConnectionHandler"
+# methods of ConnectionHandler that the rules treat as *events* (everything else reached through ``self.`` is a helper and is inlined)
+CONN_HANDLER_ATOMIC = ("handle_hook", "server_event", "log", "drain_writers", "wakeup", "on_timeout", "hook_task", "close_connection",
+                       "handle_client", "open_connection", "handle_connection")
+
+
+class HandleClientSpec(SymFlowSpec):
+    """Projection of ``ConnectionHandler.handle_client`` (helpers inlined) onto what C09 / C22 talk about, by *value*:
+
+      ('hook', Cls) / ('hookawait', Cls)       lifecycle hook built / awaited
+      ('cerr', set?, readpos)                  a branch decided by the truth of ``self.client.error`` - directly, negated, compared with
+                                               None, through ``bool()`` or through a local that holds any of these; ``readpos`` = length
+                                               of the trace when the attribute was *read* (a value read before the hook is stale)
+      ('call'|'await', ...)                    server_event / handle_connection / handle_event, ``.close()`` / ``.abort()``
+      ('wait', 'client-task'|'remaining')      ``await asyncio.wait(..)`` / ``gather(..)`` on the task created for handle_connection /
+                                               on the handlers of everything left in ``self.transports``
+      ('cancel', 'client-task'|'remaining')    ``.cancel(..)`` on such a task
+      ('loop', entered, node, kind)            a ``for`` over ``self.transports`` values / items / their handlers
+      ('hcond', non-null?)                     a branch on such a handler being set
+    """
+
+    PROC = ("server_event", "handle_connection", "handle_event")
+    CERR = "self.client.error"
+    TRANSPORTS = "self.transports"
+
+    def __init__(self, resolver=None, hook_classes=()):
+        super().__init__(keep=self._keep, resolver=resolver, loops=True, record_conds=True, hook_classes=hook_classes)
+
+    def _keep(self, ev):
+        k = ev[0]
+        if k in ("hook", "hookawait", "cerr", "hcond", "wait", "cancel", "loop"):
+            return True
+        if k == "call":
+            return ev[1].split(".")[-1] in self.PROC + ("close", "abort")
+        if k == "await":
+            return ev[1].split(".")[-1] in self.PROC
+        return False
+
+    # -- values
+    @staticmethod
+    def _truth_of(v):
+        if is_sym(v, "truth"):
+            return v
+        if is_sym(v, "cerr"):
+            return S("truth", "cerr", True, v[2])
+        if is_sym(v, "elem") and v[2] == "handler":
+            return S("truth", "handler", True, 0)
+        return None
+
+    def _elem(self, target, coll, st, depth):
+        kind = coll[2]
+        if isinstance(target, ast.Name):
+            v = S("elem", "io", False) if kind == "io" else S("elem", "handler", coll[3]) if kind == "handler" else UNKNOWN
+            return st.set(f"{depth}:{target.id}", v)
+        if isinstance(target, (ast.Tuple, ast.List)) and kind == "item" and len(target.elts) == 2 and all(isinstance(e, ast.Name) for e in target.elts):
+            st = st.set(f"{depth}:{target.elts[0].id}", UNKNOWN)
+            return st.set(f"{depth}:{target.elts[1].id}", S("elem", "io", False))
+        return None
+
+    def sym_value(self, expr, st, depth):
+        if isinstance(expr, ast.Attribute):
+            if attr_chain(expr) == self.CERR or (expr.attr == "error" and self.value(expr.value, st, depth) == R(self.CERR.rsplit(".", 1)[0])):
+                return S("cerr", len(st.trace))  # (also through `client = self.client`)
+            if expr.attr == "handler":
+                b = self.value(expr.value, st, depth)
+                if is_sym(b, "elem") and b[2] == "io":
+                    return S("elem", "handler", False)
+            return None
+        if isinstance(expr, ast.UnaryOp) and isinstance(expr.op, ast.Not):
+            t = self._truth_of(self.value(expr.operand, st, depth))
+            return S("truth", t[2], not t[3], t[4]) if t else None
+        if isinstance(expr, ast.Compare) and len(expr.ops) == 1 and isinstance(expr.comparators[0], ast.Constant) and expr.comparators[0].value is None:
+            v = self.value(expr.left, st, depth)
+            if (is_sym(v, "cerr") or (is_sym(v, "elem") and v[2] == "handler")) and isinstance(expr.ops[0], (ast.Is, ast.IsNot, ast.Eq, ast.NotEq)):
+                t = self._truth_of(v)  # `x is not None` is read like the truth of x (an error message / a task object is never falsy but set)
+                return S("truth", t[2], isinstance(expr.ops[0], (ast.IsNot, ast.NotEq)), t[4])
+            return None
+        if isinstance(expr, ast.Call):
+            f = expr.func
+            la = last_attr(f)
+            if isinstance(f, ast.Name) and f.id == "bool" and len(expr.args) == 1 and not expr.keywords:
+                return self._truth_of(self.value(expr.args[0], st, depth))
+            if la in ("create_task", "ensure_future") and expr.args and isinstance(expr.args[0], ast.Call):
+                inner = call_name(expr.args[0])
+                if inner.startswith("self.") and inner.count(".") == 1:
+                    return S("task", inner[5:])
+            if isinstance(f, ast.Name) and f.id in ("list", "tuple", "set", "frozenset", "sorted") and len(expr.args) == 1 and not expr.keywords:
+                v = self.value(expr.args[0], st, depth)
+                return v if is_sym(v, "coll") else None
+            if isinstance(f, ast.Attribute) and not expr.args and f.attr in ("values", "items") and (attr_chain(f.value) == self.TRANSPORTS or self.value(f.value, st, depth) == R(self.TRANSPORTS)):
+                if f.attr == "values":
+                    return S("coll", "io", False)
+                if f.attr == "items":
+                    return S("coll", "item", False)
+            return None
+        if isinstance(expr, (ast.ListComp, ast.SetComp, ast.GeneratorExp)):
+            if len(expr.generators) != 1 or expr.generators[0].is_async:
+                return None
+            g = expr.generators[0]
+            it = self.value(g.iter, st, depth)
+            if not is_sym(it, "coll"):
+                return None
+            st2 = self._elem(g.target, it, st, depth)
+            if st2 is None:
+                return None
+            elt = self.value(expr.elt, st2, depth)
+            tests = [self._truth_of(self.value(c, st2, depth)) for c in g.ifs]
+            if any(t is None or t[2] != "handler" or not t[3] for t in tests):
+                return None  # filtered by something else: not (known to be) every remaining handler
+            if is_sym(elt, "elem") and elt[2] == "handler":
+                return S("coll", "handler", bool(elt[3] or tests))
+            if is_sym(elt, "elem") and elt[2] == "io" and not tests:
+                return S("coll", "io", False)
+            return None
+        if isinstance(expr, (ast.List, ast.Tuple, ast.Set)):
+            vals = tuple(self.value(e, st, depth) for e in expr.elts)
+            return S("seq", vals) if any(is_sym(v) for v in vals) else None
+        return None
+
+    def bind(self, target, value_expr, st, depth, value=None):
+        if value_expr is None and value == UNKNOWN:
+            p = getattr(target, "_parent", None)
+            if isinstance(p, (ast.For, ast.AsyncFor)) and p.target is target:
+                it = self.value(p.iter, st, depth)
+                if is_sym(it, "coll"):
+                    st2 = self._elem(target, it, st, depth)
+                    if st2 is not None:
+                        return st2
+        return super().bind(target, value_expr, st, depth, value=value)
+
+    # -- events
+    def _awaited_kinds(self, v, out):
+        if is_sym(v, "task"):
+            out.append("client-task" if v[2] == "handle_connection" else "task:" + v[2])
+        elif is_sym(v, "coll") and v[2] == "handler":
+            out.append("remaining")
+        elif is_sym(v, "elem") and v[2] == "handler":
+            out.append("one-remaining")
+        elif is_sym(v, "seq"):
+            for x in v[2]:
+                self._awaited_kinds(x, out)
+
+    def sym_events(self, node, st):
+        out = []
+        for n in eval_order(node):
+            if isinstance(n, ast.Call) and isinstance(n.func, ast.Attribute) and n.func.attr == "cancel":
+                kinds: list = []
+                self._awaited_kinds(self.sym(n.func.value, st), kinds)
+                out.extend(("cancel", "remaining" if k == "one-remaining" else k) for k in kinds)
+            elif isinstance(n, ast.Await) and isinstance(n.value, ast.Call) and last_attr(n.value.func) in ("wait", "gather"):
+                kinds = []
+                for a in n.value.args:
+                    self._awaited_kinds(self.sym(a, st), kinds)
+                out.extend(("wait", k) for k in dict.fromkeys(kinds))
+        return out
+
+    def loop_event(self, node, entered, s):
+        it = self.sym(node.iter, s)
+        if not is_sym(it, "coll"):
+            return None  # a loop over something else (wake-up timers ...): not in the alphabet
+        return ("loop", entered, node, it[2] + ("!" if it[3] else ""))
+
+    def cond_event(self, expr, value, st):
+        e = expr.target if isinstance(expr, ast.NamedExpr) else expr
+        t = self._truth_of(self.sym(e, st))
+        if t is not None:
+            if t[2] == "cerr":
+                return ("cerr", value == t[3], t[4])
+            return ("hcond", value == t[3])
+        if "client.error" in ast.unparse(expr):
+            raise AnalysisError(f"handle_client: unmodelled test of client.error: {norm(expr)}")
+        return None
+
+
+def handle_client_paths(ctx, hook_classes):
+    """All terminal paths of ConnectionHandler.handle_client (helper methods inlined) in the alphabet of HandleClientSpec.
+    -> (fn, [(trace, how, state)], engine); assertion failures are not behaviours."""
+    fn = ctx.func(SERVER_PY, f"{CONN_HANDLER}.handle_client")
+    spec = HandleClientSpec(resolver=class_helper_resolver(ctx.model, SERVER_PY, CONN_HANDLER, CONN_HANDLER_ATOMIC), hook_classes=hook_classes)
+    res, eng = traces_of_v(fn, spec)
+    return fn, [(t, how, st) for t, how, st in res if how != "raise:AssertionError"], eng
